@@ -5,22 +5,22 @@ set -u
 wt=$1; k=$2; sid=$3; prop=$4; needs=$5
 cd "$wt" || exit 2
 git checkout -q -- diskcache
-clean_rc=0; /venv/bin/python demo$k.py >/tmp/wt/seed_clean.log 2>&1 || clean_rc=$?
+clean_rc=0; /venv/bin/python demo$k.py >$wt/seed_clean.log 2>&1 || clean_rc=$?
 git apply patch$k.diff || { echo "patch does not apply"; exit 2; }
-mut_rc=0; /venv/bin/python demo$k.py >/tmp/wt/seed_mut.log 2>&1 || mut_rc=$?
-/venv/bin/python -m pytest -q -p no:cacheprovider --timeout=900 -n 4 >/tmp/wt/seed_tests.log 2>&1
-summary=$(grep -E "passed|failed" /tmp/wt/seed_tests.log | tail -1)
+mut_rc=0; /venv/bin/python demo$k.py >$wt/seed_mut.log 2>&1 || mut_rc=$?
+/venv/bin/python -m pytest -q -p no:cacheprovider --timeout=900 -n 4 >$wt/seed_tests.log 2>&1
+summary=$(grep -E "passed|failed" $wt/seed_tests.log | tail -1)
 if echo "$summary" | grep -q failed; then
-  failed=$(grep ^FAILED /tmp/wt/seed_tests.log | sed 's/FAILED //; s/ - .*//' | tr '\n' ' ')
-  /venv/bin/python -m pytest -q -p no:cacheprovider --timeout=900 $failed >/tmp/wt/seed_tests2.log 2>&1
-  summary="$summary ; rerun alone: $(grep -E 'passed|failed' /tmp/wt/seed_tests2.log | tail -1)"
+  failed=$(grep ^FAILED $wt/seed_tests.log | sed 's/FAILED //; s/ - .*//' | tr '\n' ' ')
+  /venv/bin/python -m pytest -q -p no:cacheprovider --timeout=900 $failed >$wt/seed_tests2.log 2>&1
+  summary="$summary ; rerun alone: $(grep -E 'passed|failed' $wt/seed_tests2.log | tail -1)"
 fi
 git checkout -q -- diskcache
 echo "clean demo rc=$clean_rc  mutant demo rc=$mut_rc  tests: $summary"
 if echo "$summary" | grep -q passed && [ $clean_rc -eq 0 ] && [ $mut_rc -ne 0 ] && ! echo "$summary" | grep -q "rerun alone:.*failed" ; then
   d=/verif/seeded/$sid; mkdir -p $d
   cp patch$k.diff $d/patch.diff; cp demo$k.py $d/demo.py
-  /venv/bin/python - "$d" "$prop" "$needs" "$summary" "$(tail -3 /tmp/wt/seed_mut.log | tr '\n' ' ')" <<'PY'
+  /venv/bin/python - "$d" "$prop" "$needs" "$summary" "$(tail -3 $wt/seed_mut.log | tr '\n' ' ')" <<'PY'
 import json,sys
 d,prop,needs,summary,out=sys.argv[1:6]
 json.dump({'property':prop,'needs_to_manifest':needs,
